@@ -6,11 +6,14 @@ REAL_AXIOMS = ["ClassicalDedekindReals.sig_forall_dec", "ClassicalDedekindReals.
 
 PROPS = {
     "C14": {
-        "theorems": ["C14_any_schedule", "C14_each_operand_once"],
+        "theorems": ["C14_any_schedule", "C14_each_operand_once", "C14_machine_word_trackers_flat", "C14_machine_word_trackers_deep",
+                     "C14_slice_tracker_is_the_boolean_vector"],
         "axioms": [],
-        "modes": [{"name": "c14", "quick_n": 2, "thorough_n": 10, "shard": 60}],
+        "extra_vo": ["Corr/TrackerDriver.vo"],
+        "modes": [{"name": "c14", "quick_n": 2, "thorough_n": 10, "shard": 60},
+                  {"name": "c14t", "quick_n": 12, "thorough_n": 120, "shard": 30}],
         "rule": "chains v0 o v1 o ... over a 32-operator table with pairwise distinct priorities: all application orders of up to 6 (quick) / 7 (thorough) operators exhaustively, structured (ascending, descending, runs, alternating, inside-out) and random orders at lengths around 32/64/128/192(/257/513); evaluated through FlatEx (single-word tracker <= 64 operands, slice tracker above), DeepEx (always slice tracker), flat->deep (tracker inside flatex_to_deepex) and deep->flat; non-trivial = at least 2 operands; distinct = distinct (program text)",
-        "assumptions": ["the machine-word trackers of number_tracker.rs are covered by the correspondence (the proof is about the boolean-vector tracker they implement)"],
+        "assumptions": ["the word-level model coq/Model/Tracker.v mirrors number_tracker.rs (rotate_right, leading_ones, trailing_ones, the loops over words): tied to the code by the operation histories of mode c14t"],
     },
 
     "C01": {"theorems": ["C01_eval_is_reference", "C01_exact_when_flags_are_sound", "C01_free_terms", "C01_any_flat_expression_is_precedence"], "axioms": [],
@@ -29,8 +32,8 @@ PROPS = {
     "C09": {"theorems": ["C09_index_checked_first_partial", "C09_order_zero_partial"], "modes": [{"name": "c09", "quick_n": 200, "thorough_n": 1500, "shard": 20}]},
     "C18": {"theorems": ["C18_condition_and_branch_rules_partial", "C18_rule_semantics_partial"], "modes": [{"name": "c18", "quick_n": 300, "thorough_n": 2500, "shard": 30}]},
     "C06": {"theorems": ["C06_tokenizer_total_partial", "C06_preconditions_total_partial"], "nesting": True, "modes": [{"name": "c06", "quick_n": 1500, "thorough_n": 12000, "shard": 150, "profiles": ["dev", "release"]}]},
-    "C16": {"theorems": ["C16_int_add_sub_mul", "C16_int_div_rem", "C16_int_shifts_and_powers", "C16_int_results_in_range", "C16_promotion", "C16_cross_kind_compare", "C16_error_propagates", "C16_error_propagates_unary", "C16_if_else"], "prim_floats": True, "modes": [{"name": "val", "quick_n": 1, "thorough_n": 1, "shard": 6500}]},
-    "C17": {"theorems": ["C17_binary_total", "C17_dangerous_points", "C17_neg_abs"], "prim_floats": True, "modes": [{"name": "val", "quick_n": 1, "thorough_n": 1, "shard": 6500, "profiles": ["dev", "release"]}]},
+    "C16": {"extra_vo": ["Corr/ValDriver.vo"], "theorems": ["C16_int_add_sub_mul", "C16_int_div_rem", "C16_int_shifts_and_powers", "C16_int_results_in_range", "C16_promotion", "C16_cross_kind_compare", "C16_error_propagates", "C16_error_propagates_unary", "C16_if_else"], "prim_floats": True, "modes": [{"name": "val", "quick_n": 1, "thorough_n": 1, "shard": 6500}]},
+    "C17": {"extra_vo": ["Corr/ValDriver.vo"], "theorems": ["C17_binary_total", "C17_dangerous_points", "C17_neg_abs"], "prim_floats": True, "modes": [{"name": "val", "quick_n": 1, "thorough_n": 1, "shard": 6500, "profiles": ["dev", "release"]}]},
     "C19": {"theorems": ["C19_table_shape"], "prim_floats": True, "level": "other", "modes": [{"name": "c19", "quick_n": 1, "thorough_n": 1, "shard": 600}]},
     "C20": {"theorems": ["C20_history_independence", "C20_parse_deterministic"], "level": "other", "build_failure_is_violation": True, "modes": [{"name": "c20", "quick_n": 3, "thorough_n": 25, "coq": False}]},
 }
